@@ -22,6 +22,7 @@ from plumpy.base.state_machine import StateEventHook
 S = ps.ProcessState
 TERMINAL = ('finished', 'excepted', 'killed')
 KILL_CMD_MSG = 'cmdkill'
+UNCOPYABLE_CODE = 78     # how a result that cannot be copied (an object holding a lock) appears in traces and to the model
 EXC_VALUE_CODE = 77      # how a resume value that is an exception instance (`resume E`) appears in traces and to the model
 
 
@@ -145,6 +146,15 @@ class Uncopyable:
         return 'Uncopyable()'
 
 
+def val_code(v):
+    """results of awaited items as the model knows them: plain ints, an exception INSTANCE delivered as a result, an uncopyable object"""
+    if isinstance(v, UserExc):
+        return EXC_VALUE_CODE
+    if isinstance(v, Uncopyable):
+        return UNCOPYABLE_CODE
+    return v
+
+
 _CLASS_CACHE = {}
 
 
@@ -174,7 +184,7 @@ def build_class(prog):
 
         def mk(i, oc):
             def step(self):
-                ctxsnap = {int(k[1:]): v for k, v in self.ctx.__dict__.items() if k.startswith('k')}
+                ctxsnap = {int(k[1:]): val_code(v) for k, v in self.ctx.__dict__.items() if k.startswith('k')}
                 self._trace.append((i, (), (), bool(self.paused), self.status, ctxsnap, [f.done() for f in self._futs]))
                 if oc[0] == 'waiton' and oc[2]:
                     if via_call and i % 2 == 0:
@@ -524,7 +534,7 @@ class Run:
                       for x in p._trace)
         ctx = ''
         if isinstance(p, plumpy.WorkChain) and p.ctx is not None:
-            items = sorted((int(k[1:]), v) for k, v in p.ctx.__dict__.items() if k.startswith('k'))
+            items = sorted((int(k[1:]), val_code(v)) for k, v in p.ctx.__dict__.items() if k.startswith('k'))
             ctx = ','.join(f'{k}:{v}' for k, v in items)
         # `_stepping` and `_closed` are private: when a refactoring renames them they are reported as unknown ('?') and the
         # comparison with the model skips them instead of raising a false alarm
@@ -577,7 +587,8 @@ class Run:
                 f = p._futs[int(toks[1])]
                 if not f.done():
                     if toks[2] == 'ok':
-                        f.set_result(int(toks[3]))
+                        # the item SUCCEEDS; its result may be an exception instance (a collected error) or an uncopyable object
+                        f.set_result(UserExc(EXC_VALUE_CODE) if toks[3] == 'E' else Uncopyable() if toks[3] == 'U' else int(toks[3]))
                     elif toks[2] == 'killed':
                         f.set_exception(plumpy.KilledError('child was killed'))
                     elif toks[2] == 'cancelled':
@@ -616,7 +627,8 @@ class Run:
             self.resumes.append((None if toks[1] == '-' else 'N' if toks[1] == 'N' else EXC_VALUE_CODE if toks[1] == 'E' else int(toks[1]),
                                  ph, idx))
         self.ops.append('resume 0' if op == 'resume N' else f'resume {EXC_VALUE_CODE}' if op == 'resume E'
-                        else op.replace(' cancelled', ' killed') if op.startswith('complete ') else op)
+                        else op.replace(' cancelled', ' killed').replace(' ok E', f' ok {EXC_VALUE_CODE}').replace(' ok U', f' ok {UNCOPYABLE_CODE}')
+                        if op.startswith('complete ') else op)
         self.observe(ret)
 
     def tick(self):
@@ -780,6 +792,15 @@ def ops_for(prog, alphabet):
         elif o == 'complete':
             for f in range(prog.get('nfut', 0)):
                 ops.append(f'complete {f} ok {10 + f}')
+        elif o in ('completeE', 'completeU'):
+            for f in range(prog.get('nfut', 0)):
+                ops.append(f'complete {f} ok {o[-1]}')
+        elif o == 'completeV':
+            # successful completions whose RESULT is, depending on program and item, a plain value, an exception instance (a
+            # collected error, not a failure) or an object that cannot be copied
+            for f in range(prog.get('nfut', 0)):
+                kind = (f + len(prog['fns'])) % 3
+                ops.append(f'complete {f} ok {10 + f}' if kind == 0 else f'complete {f} ok E' if kind == 1 else f'complete {f} ok U')
         elif o == 'completeexc':
             for f in range(prog.get('nfut', 0)):
                 ops.append(f'complete {f} exc {3 + f}')
